@@ -205,30 +205,20 @@ Proof.
   intros W b12 s a m HR.
   pose proof HR as (Hu & Hi & Hrest).
   unfold rp_recv, rp_abs_recv.
-  destruct (rp_a_armed a) eqn:Ha; cbn [negb] in Hi; rewrite Hi.
-  - (* armed *)
-    pose proof (rp_validate_armed W s a (rp_m_seq m) HR Ha) as HV.
-    destruct (rp_validate rp_fixed W s (rp_m_seq m)) as [ok s1].
-    destruct HV as (Hok & Hu1 & Hi1 & Hno & Hyes).
-    rewrite <- Hok.
-    destruct ok; cbn [negb].
-    + destruct (Hyes eq_refl) as (HR1 & Hrl & Hrw).
-      cbn [rp_v_nooverwrite rp_fixed].
-      destruct (rp_m_auth m).
-      * rewrite Hi1. split; [reflexivity | exact HR1].
-      * split; [reflexivity|].
-        destruct Hrest as (Hl & Hb0 & Hbits & Hle).
-        pose proof (rp_rollback_restores s1 _ _ Hrl Hrw (rp_win_nonzero _ Hb0)) as (R1 & R2 & R3 & R4).
-        unfold rp_R. rewrite Ha, R1, R2, R3, R4, Hu1, Hi1. cbn [negb].
-        repeat split; auto.
-    + destruct (Hno eq_refl) as (Hl1 & Hw1). split; [reflexivity|].
-      unfold rp_R in *. rewrite Ha in *. rewrite Hl1, Hw1, Hu1, Hi1. cbn [negb].
-      destruct Hrest as (Hl & Hb0 & Hbits & Hle). repeat split; auto.
-  - (* not yet armed: nothing is validated before decryption *)
-    cbn [negb rp_v_nooverwrite rp_fixed rp_v_arm].
-    destruct Hrest as [Hrb Hseen].
-    destruct (rp_m_auth m).
-    + rewrite Hi.
+  destruct (rp_m_auth m) eqn:Em.
+  - (* genuine *)
+    destruct (rp_a_armed a) eqn:Ha; cbn [negb] in Hi; rewrite Hi.
+    + pose proof (rp_validate_armed W s a (rp_m_seq m) HR Ha) as HV.
+      destruct (rp_validate rp_fixed W s (rp_m_seq m)) as [ok s1].
+      destruct HV as (Hok & Hu1 & Hi1 & Hno & Hyes).
+      rewrite <- Hok.
+      destruct ok; cbn [negb].
+      * destruct (Hyes eq_refl) as (HR1 & Hrl & Hrw).
+        cbn [rp_v_nooverwrite rp_fixed]. rewrite Hi1. split; [reflexivity | exact HR1].
+      * destruct (Hno eq_refl) as (Hl1 & Hw1). split; [reflexivity|].
+        unfold rp_R in *. rewrite Ha in *. rewrite Hl1, Hw1, Hu1, Hi1. cbn [negb].
+        destruct Hrest as (Hl & Hb0 & Hbits & Hle). repeat split; auto.
+    + cbn [negb rp_v_nooverwrite rp_fixed rp_v_arm]. rewrite Hi.
       assert (Harm : let '(r, s1) := rp_arm rp_fixed W s (rp_m_seq m) in
                      let '(r', a1) := (if rp_abs_fresh W a (rp_m_seq m)
                                        then (RpAccept, rp_abs_accept a (rp_m_seq m))
@@ -247,8 +237,29 @@ Proof.
         -- exact Harm.
         -- split; [reflexivity | exact HR].
       * exact Harm.
-    + split; [reflexivity|].
+  - (* forged *)
+    destruct (rp_a_armed a) eqn:Ha; cbn [negb] in Hi; rewrite Hi.
+    + pose proof (rp_validate_armed W s a (rp_m_seq m) HR Ha) as HV.
+      destruct (rp_validate rp_fixed W s (rp_m_seq m)) as [ok s1].
+      destruct HV as (Hok & Hu1 & Hi1 & Hno & Hyes).
+      rewrite <- Hok.
+      destruct ok; cbn [negb].
+      * destruct (Hyes eq_refl) as (HR1 & Hrl & Hrw).
+        cbn [rp_v_nooverwrite rp_fixed].
+        split; [reflexivity|].
+        destruct Hrest as (Hl & Hb0 & Hbits & Hle).
+        pose proof (rp_rollback_restores s1 _ _ Hrl Hrw (rp_win_nonzero _ Hb0)) as (R1 & R2 & R3 & R4).
+        unfold rp_R. rewrite Ha, R1, R2, R3, R4, Hu1, Hi1. cbn [negb].
+        repeat split; auto.
+      * destruct (Hno eq_refl) as (Hl1 & Hw1). split; [reflexivity|].
+        unfold rp_R in *. rewrite Ha in *. rewrite Hl1, Hw1, Hu1, Hi1. cbn [negb].
+        destruct Hrest as (Hl & Hb0 & Hbits & Hle). repeat split; auto.
+    + cbn [negb rp_v_nooverwrite rp_fixed rp_v_arm].
+      destruct Hrest as [Hrb Hseen].
+      split; [reflexivity|].
       unfold rp_rollback. cbn [rp_v_rbflag rp_fixed]. rewrite Hrb. cbn. exact HR.
+  - (* rejected before any recipient context is touched *)
+    split; [reflexivity | exact HR].
 Qed.
 
 (* every history *)
@@ -316,15 +327,16 @@ Lemma rp_abs_recv_cases : forall W b12 a m,
   (r <> RpAccept /\ a1 = a).
 Proof.
   intros W b12 a m. unfold rp_abs_recv.
-  destruct (rp_a_armed a).
-  - destruct (rp_abs_fresh W a (rp_m_seq m)) eqn:Ef; cbn [negb].
-    + destruct (rp_m_auth m); [left; auto | right; split; [discriminate | reflexivity]].
-    + right; split; [discriminate | reflexivity].
-  - destruct (rp_m_auth m); [|right; split; [discriminate | reflexivity]].
-    destruct (rp_abs_fresh W a (rp_m_seq m)) eqn:Ef.
-    + destruct b12; [destruct (rp_m_echo m)|]; auto;
-        right; split; try discriminate; reflexivity.
-    + destruct b12; [destruct (rp_m_echo m)|]; right; split; try discriminate; reflexivity.
+  destruct (rp_m_auth m) eqn:Em.
+  - destruct (rp_a_armed a).
+    + destruct (rp_abs_fresh W a (rp_m_seq m)) eqn:Ef; cbn [negb];
+        [left; auto | right; split; [discriminate | reflexivity]].
+    + destruct (rp_abs_fresh W a (rp_m_seq m)) eqn:Ef.
+      * destruct b12; [destruct (rp_m_echo m)|]; auto;
+          right; split; try discriminate; reflexivity.
+      * destruct b12; [destruct (rp_m_echo m)|]; right; split; try discriminate; reflexivity.
+  - destruct (rp_a_armed a); [destruct (negb _)|]; right; split; try discriminate; reflexivity.
+  - right; split; [discriminate | reflexivity].
 Qed.
 
 Lemma rp_abs_run_seen : forall W b12 h a,
@@ -358,12 +370,14 @@ Proof.
   apply NoDup_rev in Hnd. rewrite rev_involutive in Hnd. exact Hnd.
 Qed.
 
-(* forged messages are invisible to the specification *)
+(* forged (and unroutable) messages are invisible to the specification *)
 Lemma rp_abs_recv_forged : forall W b12 a m,
-  rp_m_auth m = RpForged -> snd (rp_abs_recv W b12 a m) = a /\ fst (rp_abs_recv W b12 a m) <> RpAccept.
+  rp_m_auth m <> RpGenuine ->
+  snd (rp_abs_recv W b12 a m) = a /\ fst (rp_abs_recv W b12 a m) <> RpAccept.
 Proof.
-  intros W b12 a m Hf. unfold rp_abs_recv. rewrite Hf.
-  destruct (rp_a_armed a); [destruct (negb _)|]; cbn; split; auto; discriminate.
+  intros W b12 a m Hf. unfold rp_abs_recv.
+  destruct (rp_m_auth m); [congruence| |];
+    [destruct (rp_a_armed a); [destruct (negb _)|] |]; cbn; split; auto; discriminate.
 Qed.
 
 Lemma rp_abs_filter_genuine : forall W b12 h a,
@@ -382,7 +396,7 @@ Proof.
       destruct (rp_abs_run W b12 a1 (filter rp_is_genuine t)) as [rs' a2'].
       cbn [fst snd rp_genuine_verdicts] in *. rewrite Eg.
       destruct IH as [-> ->]. auto.
-    + assert (Em : rp_m_auth m = RpForged).
+    + assert (Em : rp_m_auth m <> RpGenuine).
       { unfold rp_is_genuine in Eg. destruct (rp_m_auth m); congruence. }
       pose proof (rp_abs_recv_forged W b12 a m Em) as [Hs _].
       destruct (rp_abs_recv W b12 a m) as [r a1]. cbn [snd] in Hs. subst a1.
@@ -440,13 +454,15 @@ Proof.
     split; [reflexivity | discriminate].
 Qed.
 
+(* every message that is not genuine: fails authentication, or is turned away even earlier *)
 Theorem rp_forgery_no_trace : forall W b12 s m,
-  rp_reachable W b12 s -> rp_m_auth m = RpForged ->
+  rp_reachable W b12 s -> rp_m_auth m <> RpGenuine ->
   rp_obs (snd (rp_recv rp_fixed W b12 s m)) = rp_obs s /\
   fst (rp_recv rp_fixed W b12 s m) <> RpAccept.
 Proof.
   intros W b12 s m Hr Hf. destruct (rp_reachable_R W b12 s Hr) as [a [HR _]].
-  eapply rp_forged_obs; eauto.
+  destruct (rp_m_auth m) eqn:Em; [congruence | eapply rp_forged_obs; eauto |].
+  unfold rp_recv. rewrite Em. cbn [fst snd]. split; [reflexivity | discriminate].
 Qed.
 
 Theorem rp_genuine_still_accepted : forall W b12 h,
@@ -599,14 +615,14 @@ Proof.
   assert (H1 : rp_in_range (snd (if rp_initial s then (true, s)
                                   else rp_validate v W s (rp_m_seq m)))).
   { destruct (rp_initial s); [exact Hr | apply rp_validate_range; [lia | exact Hr]]. }
-  destruct (if rp_initial s then (true, s) else rp_validate v W s (rp_m_seq m)) as [ok s1].
-  cbn [snd] in H1.
-  destruct ok; cbn [negb]; [|exact H1].
-  set (s2 := if rp_v_nooverwrite v then s1 else _).
-  assert (H2 : rp_in_range s2).
-  { subst s2. destruct (rp_v_nooverwrite v); [exact H1|].
-    destruct H1 as (Hw & Hl & Hrw & Hrl). rp_range_fin. repeat split; lia. }
-  destruct (rp_m_auth m).
+  destruct (rp_m_auth m) eqn:Em; [| |exact Hr];
+    destruct (if rp_initial s then (true, s) else rp_validate v W s (rp_m_seq m)) as [ok s1];
+    cbn [snd] in H1;
+    (destruct ok; cbn [negb]; [|exact H1]);
+    set (s2 := if rp_v_nooverwrite v then s1 else _);
+    assert (H2 : rp_in_range s2)
+      by (subst s2; destruct (rp_v_nooverwrite v); [exact H1|];
+          destruct H1 as (Hw & Hl & Hrw & Hrl); rp_range_fin; repeat split; lia).
   - destruct (rp_initial s2); [|exact H2].
     destruct b12.
     + destruct (rp_m_echo m); [exact H2 | apply rp_arm_range; [lia | exact H2] | exact H2].
